@@ -448,6 +448,81 @@ def h_e_random_cmds(ci: int, si: int) -> bool:
     return untraced(_random_cmds, pick(ci, 0, 7), pick(si, 0, 2))
 
 
+def _php3(m, n, d, fn, si):
+    """php M N D: pigeons fly to D random holes each (documented); D = N is the plain principle, D = 0 the edgeless graph"""
+    from cnfgen.families.pigeonhole import GraphPigeonholePrinciple, PigeonholePrinciple
+    flags = ['--functional'] if fn else []
+    for tool, cls in (('cnfgen', CNF), ('pbgen', OPB)):
+        with stream(si):
+            try:
+                F = run_tool(tool, ['-q', 'php', m, n, d] + flags)
+            except CLIError:
+                F = None
+        if d > n:
+            if F is not None:
+                return False
+            continue
+        if F is None:
+            return False
+        with stream(si):
+            if d == n:
+                L = PigeonholePrinciple(m, n, functional=fn, formula_class=cls)
+            else:
+                L = GraphPigeonholePrinciple(GR.bipartite_random_left_regular(m, n, d), functional=fn, formula_class=cls)
+        if not same(F, L):
+            return False
+    return True
+
+
+def h_e_php3(m: int, n: int, d: int, fn: bool, si: int) -> bool:
+    """
+    pre: 0 <= m <= 3 and 0 <= n <= 3 and 0 <= d <= 4 and 0 <= si <= 2
+    post: _
+    """
+    return untraced(_php3, pick(m, 0, 3), pick(n, 0, 3), pick(d, 0, 4), pickb(fn), pick(si, 0, 2))
+
+
+def _lattice_pair(shape_i, torus, mod_i, si, cmd_i):
+    """two graph arguments of the same shape on one command line, the first one with a random modifier: the second
+    argument is still the plain lattice (no state is shared between graph arguments)"""
+    import networkx
+    from cnfgen.families.graphisomorphism import GraphIsomorphism
+    from cnfgen.families.subgraph import SubgraphFormula
+    dims = [[2, 3], [3, 3], [2, 2], [3, 4]][shape_i]
+    if torus and min(dims) < 3:
+        return True
+    name = 'torus' if torus else 'grid'
+    mod = [['addedges', 2], ['plantclique', 3], ['splitedges', 1]][mod_i]
+    fs = _FS()
+    GR.open = fs.open
+    GF.open = fs.open
+    try:
+        first = [name] + dims + mod + ['save', 'first.kthlist']
+        second = [name] + dims
+        argv = (['iso'] + first + ['-e'] + second) if cmd_i == 0 else (['subgraph', '-G'] + first + ['-H'] + second)
+        with stream(si):
+            F = run_tool('cnfgen', ['-q'] + argv)
+        A = g('simple', ['first.kthlist'])
+    finally:
+        del GR.open
+        del GF.open
+    plain = GR.Graph.from_networkx(networkx.grid_graph(dims, periodic=bool(torus)))
+    L = GraphIsomorphism(A, plain) if cmd_i == 0 else SubgraphFormula(A, plain)
+    ok = same(F, L)
+    # ... and a later command line in the same process still sees the plain lattice
+    K = run_tool('cnfgen', ['-q', 'kclique', 3] + second)
+    from cnfgen.families.subgraph import CliqueFormula
+    return ok and same(K, CliqueFormula(plain, 3))
+
+
+def h_e_lattice_pair(shape_i: int, torus: bool, mod_i: int, si: int, cmd_i: int) -> bool:
+    """
+    pre: 0 <= shape_i <= 3 and 0 <= mod_i <= 2 and 0 <= si <= 2 and 0 <= cmd_i <= 1
+    post: _
+    """
+    return untraced(_lattice_pair, pick(shape_i, 0, 3), pickb(torus), pick(mod_i, 0, 2), pick(si, 0, 2), pick(cmd_i, 0, 1))
+
+
 # ------------------------------------------------------------- save, output variants
 class _FS:
     def __init__(self):
